@@ -339,6 +339,14 @@ pub(crate) fn parse_f64(v: &str) -> Option<f64> {
         ".inf" | ".Inf" | ".INF" | "+.inf" | "+.Inf" | "+.INF" => Some(f64::INFINITY),
         "-.inf" | "-.Inf" | "-.INF" => Some(f64::NEG_INFINITY),
         ".nan" | ".NaN" | ".NAN" => Some(f64::NAN),
-        _ => v.parse::<f64>().ok(),
+        // `f64::from_str` also accepts `inf`, `infinity` and `nan` in any case, which are not
+        // core schema floats: only hand it decimal and exponent notation.
+        _ if v
+            .bytes()
+            .all(|b| matches!(b, b'0'..=b'9' | b'+' | b'-' | b'.' | b'e' | b'E')) =>
+        {
+            v.parse::<f64>().ok()
+        }
+        _ => None,
     }
 }
